@@ -300,6 +300,9 @@ func (e *SpecEnv) index(base Value, idx ast.Expr, n ast.Node) Value {
 			i := e.Int(idx)
 			return rowOf(b, i)
 		}
+		if _, isInt := intKindOf(b.Elem); !isInt && !isBoolType(b.Elem) {
+			return e.c.elemOf(e.st, b, e.Int(idx))
+		}
 		var addr *Term
 		if e.qvar != "" {
 			if id, ok := idx.(*ast.Ident); ok && id.Name == e.qvar {
